@@ -48,8 +48,8 @@ CLAIMS = {
         text="Theorem C12_refines: in every reachable state every request (valid or invalid) gets the response of the set-level spec "
              "Spec12.sp_step and the state abstracts to the spec's next state (fresh ids = number handed out so far, variant = predecessor "
              "- removals + additions, no-op close, rejections). C12_rejected_unchanged: a rejected request returns the very same state. "
-             "C12_unique_names, C12_build. Proved for the native builder's four strategies (the generic builder shares the request layer; "
-             "its two strategies are exercised through E1's replays into generic builders). E1 observes response + current data after "
+             "C12_unique_names, C12_build. C12_refines_generic: the same refinement for the generic builder closed by its own two strategies (set-level "
+             "invariant ginv, Proofs/Refine12G.v); the two builders share the request layer (the native one delegates), the generic strategies are exercised through E1's replays. E1 observes response + current data after "
              "every request and full state after every close; its oracle checks 'unchanged after Err' on the full observable state.",
         note=BASE_NOTE,
         ref="DESIGN.md section 4 C12"),
@@ -126,39 +126,42 @@ CLAIMS = {
         note=BASE_NOTE,
         ref="DESIGN.md section 4 C10"),
     "C04": dict(
-        engine="E2 gendump + E3 execgen",
-        technique="Coq proofs on an abstract machine for the generated function bodies + generator differential + execution of real generated code (dev+hooks, release)",
-        text="Theorems C04_new, C04_get, C04_unpack, C04_set_frame, C04_new_uninit (coq/Props/C04.v): on the abstract machine Exec running the "
+        engine="E1 bdiff + E2 gendump + E3 execgen",
+        technique="Coq proofs on an abstract machine for the generated function bodies, linked to the layout theorems + builder and generator differentials + execution of real generated code (dev+hooks, release)",
+        text="Theorems C04_new, C04_get, C04_unpack, C04_set_frame, C04_new_uninit, C04_new_uninit_then_fill (the fields left uninitialised, once written, complete the variant), "
+             "C04_end_to_end (from a request history to the values read back: layout_ok is DERIVED from C01/C02/C12 by Proofs/Link.v) (coq/Props/C04.v): on the abstract machine Exec running the "
              "bodies Gen emits, for every definition/variant with layout_ok, every capacity and every valuation: new never faults and yields a record "
              "that holds exactly the values put in; every accessor of ANY record that holds the variant returns the field's value; unpack returns all "
              "values and destroys nothing; a write through one mutable accessor changes that field and no other. C04_current ties the pointer/store "
-             "facts of data.rs (translator). E2 compares every item of the real generated text with Gen; E3 executes real generated modules over 12 "
+             "facts of data.rs (translator). E1 ties the layout the theorems start from; E2 compares every item of the real generated text with Gen; E3 executes real generated modules over 13 "
              "instrumented field types on the stack, in a Box, in a Vec, with larger capacities, by-value rebinding, in dev (with runtime hooks) and release.",
         note=BASE_NOTE + "PARTIAL: Exec is a model of a fragment of Rust (trusted, validated by E3); two zero-size fields of one type at one offset are outside the theorems (E3 covers them); what LLVM does is observed, not proved.",
         ref="DESIGN.md section 4 C04"),
     "C05": dict(
-        engine="E2 gendump + E3 execgen",
+        engine="E1 bdiff + E2 gendump + E3 execgen",
         technique="Coq proof (conversion maps records that hold P to records that hold Q) + generator differential + execution of every form and chain",
         text="Theorem C05 (conv_holds): for two consecutive variants with layout_ok and any record holding the previous one, each of the four generated "
              "conversion forms never faults, keeps every carried field with its value, stores every supplied added field with the supplied value (an added "
              "field may reuse a removed field's bytes: removed fields are read first), and hands back (and_out) or destroys once (otherwise) every removed "
              "field with the value it had. C05_minus_plus: the lists Gen computes by merging the id-sorted variants have the required shape. Chains are the "
-             "composition (the result holds the next variant). E2 ties statement order; E3 executes the 4 forms and 4 chain patterns per definition.",
+             "composition: C05_holds (complete forms map `holds P` to `holds Q`), C05_uninit_then_fill (uninit forms, then one write per field left uninitialised). "
+             "E1 ties the layout, E2 statement order; E3 executes the 4 forms and 4 chain patterns per definition.",
         note=BASE_NOTE + "PARTIAL as C04.",
         ref="DESIGN.md section 4 C05"),
     "C06": dict(
-        engine="E2 gendump + E3 execgen",
+        engine="E1 bdiff + E2 gendump + E3 execgen",
         technique="Coq proofs (per-operation accounting of every value on the abstract machine) + ledger of live instances in real executions",
         text="Theorems C06_drop (the generated Drop destroys a permutation of the droppable values the record holds: each exactly once), "
              "C06_conversion_drops, with C04_new / C04_unpack / C04_set_frame / C05 stating for every other operation which values are moved in, handed "
-             "back or destroyed. E3 runs every scenario under a ledger of live instances (double destruction and leaks are reported per operation "
+             "back or destroyed. C06_lifecycle_drop / _unpack: ANY sequence of reads and writes on one variant, then Drop / unpack; C06_whole_life: any number of "
+             "conversions with any reads and writes in between, then Drop - destroyed plus handed back equals entered, as multisets, and nothing faults. E3 runs every scenario under a ledger of live instances (double destruction and leaks are reported per operation "
              "sequence), plus the per-byte ownership shadow of the runtime hooks.",
-        note=BASE_NOTE + "PARTIAL as C04; the ledger theorem over arbitrary operation sequences is the composition of the per-operation theorems (not yet stated as one induction).",
+        note=BASE_NOTE + "PARTIAL as C04 (the whole-life theorem covers the complete conversion forms).",
         ref="DESIGN.md section 4 C06"),
     "C07": dict(
-        engine="E2 gendump + E3 execgen (+ runtime hooks)",
+        engine="E1 bdiff + E2 gendump + E3 execgen (+ runtime hooks)",
         technique="Coq proofs that no generated operation reaches a Fault of the abstract machine + hooks (bounds, alignment, ownership shadow) + address checks in real executions",
-        text="Theorem C07_no_fault (with C05): every access the generated operations make is in bounds, aligned for its type given the alignment class "
+        text="Theorems C07_no_fault (with C05) and C07_whole_life_no_fault (a whole life across variants): every access the generated operations make is in bounds, aligned for its type given the alignment class "
              "of the buffer (A for record structs, 1 for local buffers), touches a droppable value only where one of that type is owned, never stores onto "
              "an owned droppable value, stores through a unique pointer by non-alignment-requiring means. C07_current ties those runtime facts to data.rs; "
              "C07_refuted_unfixed keeps the pre-fix faults. E3 checks the address of every record and every field reference at stack/Box/Vec placements and "
@@ -196,17 +199,17 @@ CLAIMS = {
         engine="E2 gendump + E3 execgen",
         technique="Coq proofs on the abstract machine (clone = constructor over per-field clones) + generator differential + executions incl. panicking clones",
         text="Theorems C16_equal (the clone never faults, destroys nothing, every field has the payload of the source's), C16_independent (a write to one "
-             "leaves the other), C16_gen (every field, declaration order, copied iff may-be-uninit; clone_from agrees - checked by the E2 dumper). E3 runs "
+             "leaves the other), C16_clone_from (the target then holds the clone's values; exactly its previous droppable values were destroyed, each once), C16_gen (every field, declaration order, copied iff may-be-uninit; clone_from agrees - checked by the E2 dumper). E3 runs "
              "clone / mutate / drop-either / clone_from and a clone that panics at every tracked field, under the ledger.",
         note=BASE_NOTE + "PARTIAL as C04; unwinding of a panicking clone is executed, not modelled.",
         ref="DESIGN.md section 4 C16"),
     "C19": dict(
         category="other",
-        engine="E1 bdiff + E2 gendump",
-        technique="by construction in the model (functions) + cross-process differential + hash of generated text in two processes + ordered-collections scan",
+        engine="E1 bdiff + E2 gendump + E6 tyname",
+        technique="by construction in the model (functions) + cross-process differential + hash of generated text in two processes + repeated type-table lookups with fresh strings + ordered-collections scan",
         text="C19_model_is_a_function is immediate; what decides the property is (1) E1/E2 comparing the implementation with the model function in "
              "separately started processes, (2) E2 generating every module twice in one process and hashing it again in another process, (3) the translator "
-             "requiring ordered collections only in the strategy/generator sources (C19_current).",
+             "requiring ordered collections only in the strategy/generator sources (C19_current), (4) E6 repeating every type lookup in three passes with freshly allocated strings.",
         note=BASE_NOTE,
         ref="DESIGN.md section 4 C19"),
 }
@@ -241,7 +244,7 @@ def main():
                   "source_commits": commits, "add_only": True},
         "engines": [
             {"name": "E1 bdiff", "path": "harness/src/bin/bdiff.rs + coq/Model/{Layout,Builder,Observe}.v + coq/extract",
-             "serves_properties": ["C01", "C02", "C03", "C12", "C13", "C18", "C19", "C20"],
+             "serves_properties": ["C01", "C02", "C03", "C04", "C05", "C06", "C07", "C12", "C13", "C18", "C19", "C20"],
              "kind_free_text": "differential execution of the real builder against the Gallina model (vm_compute inside Coq and extracted OCaml), plus property oracles on the implementation output"},
             {"name": "E4 vecdrv", "path": "harness/src/bin/vecdrv.rs + coq/Model/{VecConv,VecScript}.v + vlib/e4.py",
              "serves_properties": ["C08", "C09", "C10"],
@@ -256,9 +259,9 @@ def main():
              "serves_properties": ["C11", "C13", "C14"],
              "kind_free_text": "one rustc target per probe: accept / reject of generated modules"},
             {"name": "E6 tyname", "path": "vlib/e6.py + coq/Model/{TypeName,TypeParse}.v + coq/extract (tyname mode) + harness/src/vt.rs",
-             "serves_properties": ["C17", "C18"],
+             "serves_properties": ["C17", "C18", "C19"],
              "kind_free_text": "grammar-generated Rust types: recorded names against the extracted model, table lookups under several spellings, JSON round trip, rustc identity probe"},
-            {"name": "T1/T2 srcscan", "path": "vlib/srcscan.py -> coq/Current/Runtime.v",
+            {"name": "T1/T2 srcscan", "path": "harness/rtscan (syn) + vlib/srcscan.py -> coq/Current/Runtime.v",
              "serves_properties": ["C04", "C05", "C06", "C07", "C08", "C09", "C10", "C11", "C19"],
              "kind_free_text": "translator of token-level source facts into model parameters, regenerated on every run"},
         ],
